@@ -579,6 +579,7 @@ class Dict(dict, base.Symbolic, pg_typing.CustomTyping):
     if (self.sym_parent is not None
         and self.sym_parent.sym_path == self.sym_path):
       target = self.sym_parent
+    self._invalidate_content_caches()
     return base.FieldUpdate(
         utils.KeyPath(key, self.sym_path), target, field, old_value, new_value)
 
@@ -788,6 +789,7 @@ class Dict(dict, base.Symbolic, pg_typing.CustomTyping):
       raise base.WritePermissionError('Cannot pop item from a sealed Dict.')
     key, value = super().popitem()
     self._detach(value)
+    self._invalidate_content_caches()
     return key, value
 
   def clear(self) -> None:
@@ -799,6 +801,7 @@ class Dict(dict, base.Symbolic, pg_typing.CustomTyping):
     for value in self.sym_values():
       self._detach(value)
     super().clear()
+    self._invalidate_content_caches()
 
     if value_spec:
       self.use_value_spec(value_spec, self._allow_partial)
